@@ -2,6 +2,7 @@ package main
 
 import (
 	"fmt"
+	"go/token"
 	"sort"
 	"strings"
 
@@ -573,41 +574,89 @@ func checkN3(c *Ctx) {
 	default:
 		r.Discharge("N3", key, c.P.pos(inner.front.Pos()), "inner loop: right results, front to back")
 	}
-	// calculation(d, context, lhsCandidate, rhsCandidate): argument order, in the loop
+	// calculation(d, context, lhsCandidate, rhsCandidate): argument order. The call
+	// may sit in resultsForRHS or in a helper it calls; a helper's parameters are
+	// resolved to what resultsForRHS passes for them.
 	key = "resultsForRHS/calculation-arguments"
 	lhsParam := rfr.Params[2]
 	nCalc, badCalc := 0, ""
+	isCalcCall := func(call *ssa.Call) bool {
+		if call.Call.StaticCallee() != nil || call.Call.IsInvoke() || len(call.Call.Args) != 4 {
+			return false
+		}
+		return namedTypeName(call.Call.Value.Type()) == "crossFunctionCalculation" || strings.Contains(exprOfValue(call.Call.Value), "Calculation")
+	}
+	checkArgs := func(pos token.Pos, lhsArgs, rhsArgs []ssa.Value) {
+		nCalc++
+		for _, a := range lhsArgs {
+			if a != ssa.Value(lhsParam) {
+				badCalc = c.P.pos(pos)
+			}
+		}
+		for _, a := range rhsArgs {
+			if k, isNil := a.(*ssa.Const); isNil && k.IsNil() {
+				continue // the CalcWhenEmpty call
+			}
+			if _, isTA := a.(*ssa.TypeAssert); !isTA {
+				badCalc = c.P.pos(pos)
+			}
+		}
+	}
 	eachInstr(rfr, func(ins ssa.Instruction) {
 		call, ok := ins.(*ssa.Call)
-		if !ok || call.Call.StaticCallee() != nil || call.Call.IsInvoke() || len(call.Call.Args) != 4 {
+		if !ok {
 			return
 		}
-		if !strings.Contains(exprOfValue(call.Call.Value), "Calculation") {
+		if isCalcCall(call) {
+			checkArgs(call.Pos(), []ssa.Value{call.Call.Args[2]}, []ssa.Value{call.Call.Args[3]})
 			return
 		}
-		nCalc++
-		if call.Call.Args[2] != ssa.Value(lhsParam) {
-			badCalc = c.P.pos(call.Pos())
+		// a module helper called from here that makes the calculation call
+		h := call.Call.StaticCallee()
+		if h == nil || h.Blocks == nil || !strings.HasPrefix(funcKey(h), "yqlib.") {
+			return
 		}
-		if k, isNil := call.Call.Args[3].(*ssa.Const); isNil && k.IsNil() {
-			return // the CalcWhenEmpty call
-		}
-		if _, isTA := call.Call.Args[3].(*ssa.TypeAssert); !isTA {
-			badCalc = c.P.pos(call.Pos())
-		}
+		eachInstr(h, func(i2 ssa.Instruction) {
+			c2, ok := i2.(*ssa.Call)
+			if !ok || !isCalcCall(c2) {
+				return
+			}
+			resolve := func(v ssa.Value) ssa.Value {
+				if p, ok := v.(*ssa.Parameter); ok {
+					if a := argOf(&call.Call, h, p); a != nil {
+						return a
+					}
+				}
+				return v
+			}
+			checkArgs(call.Pos(), []ssa.Value{resolve(c2.Call.Args[2])}, []ssa.Value{resolve(c2.Call.Args[3])})
+		})
 	})
-	if nCalc >= 2 && badCalc == "" {
+	switch {
+	case nCalc < 2:
+		r.Undecided("N3", key, c.P.pos(rfr.Pos()), "fewer than two calculation calls found in resultsForRHS and the helpers it calls: shape not recognised")
+	case badCalc == "":
 		r.Discharge("N3", key, c.P.pos(rfr.Pos()), "Calculation(d, context, left candidate, right element) at every call")
-	} else {
-		r.Finding("N3", key, firstNonEmpty(badCalc, c.P.pos(rfr.Pos())), "the calculation is not called with (left candidate, right element) in that order")
+	default:
+		r.Finding("N3", key, badCalc, "the calculation is not called with (left candidate, right element) in that order")
 	}
 	// results are appended at the back
 	key = "resultsForRHS/append"
 	front := ""
+	scan := func(f *ssa.Function) {
+		eachInstr(f, func(ins ssa.Instruction) {
+			if call, ok := ins.(*ssa.Call); ok {
+				if n := calleeName(&call.Call); n == "(*container/list.List).PushFront" || n == "(*container/list.List).InsertBefore" {
+					front = c.P.pos(call.Pos())
+				}
+			}
+		})
+	}
+	scan(rfr)
 	eachInstr(rfr, func(ins ssa.Instruction) {
 		if call, ok := ins.(*ssa.Call); ok {
-			if n := calleeName(&call.Call); n == "(*container/list.List).PushFront" || n == "(*container/list.List).InsertBefore" {
-				front = c.P.pos(call.Pos())
+			if h := call.Call.StaticCallee(); h != nil && h.Blocks != nil && strings.HasPrefix(funcKey(h), "yqlib.") {
+				scan(h)
 			}
 		}
 	})
